@@ -253,16 +253,29 @@ Section Denote.
     end.
 
   (* map key from the member name; supported key kinds: int32 int64 uint32 uint64 bool string *)
+  (* a member name that is not the canonical literal of the key: either a spelling the key kind's Go parser also accepts
+     ("+5", "007", "TRUE": outside the property, the converter accepts them) or no literal of the key kind at all
+     (non-numeric text, out of range for the key width, a sign on an unsigned key, non-bool text; any name for a key kind
+     the converter does not support: the sint, fixed and sfixed kinds): that must be an ERROR *)
+  Definition key_literal_accepted (kk : Z) (s : list Z) : bool :=
+    if kk =? 5 then match go_parse_int s 32 with Some _ => true | None => false end
+    else if kk =? 3 then match go_parse_int s 64 with Some _ => true | None => false end
+    else if kk =? 13 then match go_parse_uint s 32 with Some _ => true | None => false end
+    else if kk =? 4 then match go_parse_uint s 64 with Some _ => true | None => false end
+    else if kk =? 8 then match go_parse_bool s with Some _ => true | None => false end
+    else false.
+  Definition not_canonical (kk : Z) (s : list Z) : res mkey := if key_literal_accepted kk s then RUndef else RErr.
+
   Definition denote_key0 (kk : Z) (s : list Z) : res mkey :=
     if kk =? 9 then (if utf8_valid s && jbytes_okb s then ROk (KStr s) else RUndef)
     else if kk =? 8 then
-      (if bytes_eqb s lit_true then ROk (KInt 8 1) else if bytes_eqb s lit_false then ROk (KInt 8 0) else RUndef)
+      (if bytes_eqb s lit_true then ROk (KInt 8 1) else if bytes_eqb s lit_false then ROk (KInt 8 0) else not_canonical kk s)
     else if (kk =? 5) || (kk =? 3) || (kk =? 13) || (kk =? 4) then
       match parse_int s with
-      | Some z => if bytes_eqb (fmt_int z) s && scalar_okb kk z then ROk (KInt kk z) else RUndef
-      | None => RUndef
+      | Some z => if bytes_eqb (fmt_int z) s && scalar_okb kk z then ROk (KInt kk z) else not_canonical kk s
+      | None => not_canonical kk s
       end
-    else RUndef.
+    else RErr.
   (* strict: what encodeMapKey writes is the wire form of the key (fails for uint32 >= 2^31, uint64 >= 2^63: finding 903) *)
   Definition key_agrees (kk : Z) (s : list Z) (key : mkey) : bool :=
     negb strict ||
